@@ -84,6 +84,7 @@ fn main() {
     "C18" => props::c18::run(&ctx, &mut rep),
     "C19" => props::c19::run(&ctx, &mut rep),
     "C20" => props::c20::run(&ctx, &mut rep),
+    "C22" => props::c22::run(&ctx, &mut rep),
     "C23" => props::c23::run(&ctx, &mut rep),
     "C27" => props::c27::run(&ctx, &mut rep),
     "C28" => props::c28::run(&ctx, &mut rep),
